@@ -129,6 +129,9 @@ pub const CLOCK_BASES: &[(&str, &str)] = &[
     // quiet checks and a quiet mate available to either side
     ("r3k3/8/8/8/8/8/8/R3K3", "Qq"),
     ("6k1/5ppp/8/8/8/8/5PPP/R3K3", "Q"),
+    // the longest records: 32 pieces, every empty square isolated (71-character placement), four rights
+    ("r1b1k1r1/p1p1p1p1/1p1p1p1p/n1n1q1b1/N1N1Q1B1/1P1P1P1P/P1P1P1P1/R1B1K1R1", "GAga"),
+    ("r1b1k2r/p1p1p1p1/1p1p1p1p/n1n1q1b1/N1N1Q1B1/1P1P1P1P/P1P1P1P1/R1B1K2R", "KQkq"),
 ];
 
 pub fn fen_roots(fens: &[String], sink: &Sink) -> Vec<(RootDesc, Board)> {
@@ -658,6 +661,102 @@ impl RawUniverse for EpUniverse {
     }
 }
 
+/// En-passant exposure universe (seven men): the mover's king on the pawns' rank, an enemy rook /
+/// queen on that rank (so that the capture may expose the king along the rank), an enemy bishop /
+/// queen on one of the king's diagonals and no or one blocker between them — every combination of
+/// "exposed along the rank" x "diagonal open / closed".
+pub struct EpExposure;
+impl RawUniverse for EpExposure {
+    fn name(&self) -> String {
+        "S-EPX".into()
+    }
+    fn bounds(&self) -> Value {
+        json!({"mover_colours": 2, "ep_files": 8, "capturer": "left or right", "own_king": "every free square of the pawns' rank", "rank_slider": "enemy R or Q on every free square of that rank",
+               "diagonal_slider": "enemy B or Q on every square of the king's diagonals", "blocker": "none, or own P / own N / enemy N on every square between king and diagonal slider", "enemy_king": "first free far square"})
+    }
+    fn parts(&self) -> usize {
+        2 * 8
+    }
+    fn part(&self, i: usize, f: &mut dyn FnMut(Pos)) {
+        let c = Col::ALL[i / 8];
+        let file = (i % 8) as u8;
+        let them = c.other();
+        let rank = c.rel_rank(4);
+        let pawn = sq(file, rank);
+        let target = sq(file, c.rel_rank(5));
+        for df in [-1i32, 1] {
+            let cap = match refmodel::step(pawn, df, 0) {
+                Some(s) => s,
+                None => continue,
+            };
+            let mut base = Pos::empty();
+            base.stm = c;
+            base.ep = Some(target);
+            base.fm = 2;
+            put(&mut base, pawn, Kind::P, them);
+            put(&mut base, cap, Kind::P, c);
+            for kf in 0..8u8 {
+                let ks = sq(kf, rank);
+                if base.sq[ks as usize].is_some() {
+                    continue;
+                }
+                for rf in 0..8u8 {
+                    let rs = sq(rf, rank);
+                    if rs == ks || base.sq[rs as usize].is_some() {
+                        continue;
+                    }
+                    for rk in [Kind::R, Kind::Q] {
+                        let mut p1 = base.clone();
+                        put(&mut p1, ks, Kind::K, c);
+                        put(&mut p1, rs, rk, them);
+                        // enemy king: first far square that is free and not adjacent to ours
+                        let ek = [sq(0, them.back_rank()), sq(7, them.back_rank()), sq(0, c.back_rank()), sq(7, c.back_rank())].into_iter().find(|&e| {
+                            p1.sq[e as usize].is_none() && ((refmodel::file_of(e) as i32 - kf as i32).abs() > 1 || (refmodel::rank_of(e) as i32 - rank as i32).abs() > 1)
+                        });
+                        let ek = match ek {
+                            Some(e) => e,
+                            None => continue,
+                        };
+                        put(&mut p1, ek, Kind::K, them);
+                        f(p1.clone());
+                        for dir in refmodel::DIAG_D {
+                            let mut squares = Vec::new();
+                            let mut cur = ks;
+                            while let Some(n) = refmodel::step(cur, dir.0, dir.1) {
+                                squares.push(n);
+                                cur = n;
+                            }
+                            for (bi, &bs) in squares.iter().enumerate() {
+                                if p1.sq[bs as usize].is_some() {
+                                    continue;
+                                }
+                                for bk in [Kind::B, Kind::Q] {
+                                    let mut p2 = p1.clone();
+                                    put(&mut p2, bs, bk, them);
+                                    f(p2.clone());
+                                    for &xs in &squares[..bi] {
+                                        if p2.sq[xs as usize].is_some() {
+                                            continue;
+                                        }
+                                        for (xk, own) in [(Kind::P, true), (Kind::N, true), (Kind::N, false)] {
+                                            if xk == Kind::P && (refmodel::rank_of(xs) == 0 || refmodel::rank_of(xs) == 7) {
+                                                continue;
+                                            }
+                                            let mut p3 = p2.clone();
+                                            put(&mut p3, xs, xk, if own { c } else { them });
+                                            f(p3);
+                                        }
+                                    }
+                                }
+                            }
+                        }
+                    }
+                }
+            }
+        }
+    }
+}
+
 /// Multi-check universe: mover's king on 6 squares, enemy king far away, every multiset of `n`
 /// enemy attackers from {N, B, R, Q, P} on all squares.
 pub struct Checks {
@@ -856,6 +955,167 @@ impl RawUniverse for TwoLines {
     }
 }
 
+/// Single check + pin universe: the mover's king on a few squares, every single enemy checker, and
+/// on every other line through the king one piece of the mover (N B R Q) pinned by an enemy slider.
+pub struct CheckPin {
+    pub kings: Vec<Sq>,
+}
+impl RawUniverse for CheckPin {
+    fn name(&self) -> String {
+        format!("S-CHECKPIN(kings={})", self.kings.len())
+    }
+    fn bounds(&self) -> Value {
+        json!({"mover_king_squares": self.kings, "mover_colours": 2, "checker": "every enemy N B R Q P on every square that gives check",
+               "pin": "on each of the 8 lines: one piece of the mover (N B R Q) at every distance, pinned by an enemy R|B (by line type) or Q at every distance behind it"})
+    }
+    fn parts(&self) -> usize {
+        self.kings.len() * 2
+    }
+    fn part(&self, i: usize, f: &mut dyn FnMut(Pos)) {
+        let c = Col::ALL[i % 2];
+        let k = self.kings[i / 2];
+        let them = c.other();
+        let ek = [63u8, 56, 7, 0]
+            .into_iter()
+            .find(|&e| (refmodel::file_of(e) as i32 - refmodel::file_of(k) as i32).abs() > 1 || (refmodel::rank_of(e) as i32 - refmodel::rank_of(k) as i32).abs() > 1)
+            .unwrap();
+        let mut base = Pos::empty();
+        base.stm = c;
+        put(&mut base, k, Kind::K, c);
+        put(&mut base, ek, Kind::K, them);
+        for code in 0..5 * 64usize {
+            let (ck, cs) = (NONKING[code / 64], (code % 64) as Sq);
+            if base.sq[cs as usize].is_some() {
+                continue;
+            }
+            let mut p = base.clone();
+            put(&mut p, cs, ck, them);
+            if p.checkers().len() != 1 {
+                continue;
+            }
+            f(p.clone());
+            for dir in DIRS8 {
+                let mut squares = Vec::new();
+                let mut cur = k;
+                while let Some(n) = refmodel::step(cur, dir.0, dir.1) {
+                    squares.push(n);
+                    cur = n;
+                }
+                let ortho = dir.0 == 0 || dir.1 == 0;
+                for (pi, &psq) in squares.iter().enumerate() {
+                    if p.sq[psq as usize].is_some() {
+                        break;
+                    }
+                    for &ssq in &squares[pi + 1..] {
+                        if p.sq[ssq as usize].is_some() {
+                            break;
+                        }
+                        for sk in [if ortho { Kind::R } else { Kind::B }, Kind::Q] {
+                            for ok in [Kind::N, Kind::B, Kind::R, Kind::Q] {
+                                let mut q = p.clone();
+                                put(&mut q, psq, ok, c);
+                                put(&mut q, ssq, sk, them);
+                                if q.checkers().len() == 1 {
+                                    f(q);
+                                }
+                            }
+                        }
+                    }
+                }
+            }
+        }
+    }
+}
+
+/// Boxed castling universe: every Chess960 king/rook geometry of one wing with the right set, plus
+/// every subset of at most `max_items` items from a menu of pieces around the king (own pawns on the
+/// three squares in front, own pieces beside it, enemy pawns two ranks up, enemy rooks controlling
+/// the neighbouring files, an enemy bishop/knight nearby). Contains the positions in which castling
+/// is the mover's only legal move, or is prevented only by one attacked square.
+pub struct CastleBox {
+    pub max_items: usize,
+}
+const BOX_MENU: [(i32, u8, Kind, bool); 16] = [
+    (-1, 1, Kind::P, true),
+    (0, 1, Kind::P, true),
+    (1, 1, Kind::P, true),
+    (-1, 0, Kind::B, true),
+    (1, 0, Kind::N, true),
+    (-1, 2, Kind::P, false),
+    (0, 2, Kind::P, false),
+    (1, 2, Kind::P, false),
+    (-2, 2, Kind::P, false),
+    (2, 2, Kind::P, false),
+    (-1, 7, Kind::R, false),
+    (1, 7, Kind::R, false),
+    (-2, 7, Kind::R, false),
+    (2, 7, Kind::R, false),
+    (0, 3, Kind::N, false),
+    (3, 3, Kind::B, false),
+];
+impl RawUniverse for CastleBox {
+    fn name(&self) -> String {
+        format!("S-CASTLEBOX(items<={})", self.max_items)
+    }
+    fn bounds(&self) -> Value {
+        json!({"colours": 2, "king_files": 8, "rook_files": "every admissible file of one wing (both wings)", "menu_items": BOX_MENU.len(), "subset_size_max": self.max_items, "enemy_king": "far corner", "side": "the castling side"})
+    }
+    fn parts(&self) -> usize {
+        2 * 8
+    }
+    fn part(&self, i: usize, f: &mut dyn FnMut(Pos)) {
+        let c = Col::ALL[i / 8];
+        let kf = (i % 8) as u8;
+        let br = c.back_rank();
+        let them = c.other();
+        let ksq = sq(kf, br);
+        for wing in [SHORT, LONG] {
+            let files: Vec<u8> = if wing == SHORT { (kf + 1..8).collect() } else { (0..kf).collect() };
+            for rf in files {
+                let mut base = Pos::empty();
+                base.stm = c;
+                put(&mut base, ksq, Kind::K, c);
+                put(&mut base, sq(rf, br), Kind::R, c);
+                base.rights[c as usize][wing] = Some(rf);
+                // enemy king in the far corner away from the action
+                let ek = sq(if kf < 4 { 7 } else { 0 }, them.back_rank());
+                put(&mut base, ek, Kind::K, them);
+                // menu items that fit on the board and on empty squares
+                let items: Vec<(Sq, Kind, Col)> = BOX_MENU
+                    .iter()
+                    .filter_map(|&(df, rr, k, own)| {
+                        let file = kf as i32 + df;
+                        if !(0..8).contains(&file) {
+                            return None;
+                        }
+                        let s = sq(file as u8, c.rel_rank(rr));
+                        if base.sq[s as usize].is_some() {
+                            return None;
+                        }
+                        Some((s, k, if own { c } else { them }))
+                    })
+                    .collect();
+                fn rec(p: &Pos, items: &[(Sq, Kind, Col)], from: usize, left: usize, f: &mut dyn FnMut(Pos)) {
+                    f(p.clone());
+                    if left == 0 {
+                        return;
+                    }
+                    for j in from..items.len() {
+                        let (s, k, col) = items[j];
+                        if p.sq[s as usize].is_some() {
+                            continue;
+                        }
+                        let mut q = p.clone();
+                        q.sq[s as usize] = Some((k, col));
+                        rec(&q, items, j + 1, left - 1, f);
+                    }
+                }
+                rec(&base, &items, 0, self.max_items, f);
+            }
+        }
+    }
+}
+
 /// All one-edit neighbours of a corpus of accepted boards ("one deviation from a valid state").
 pub struct Edit {
     pub corpus: Vec<Pos>,
@@ -932,6 +1192,37 @@ impl RawUniverse for Edit {
         });
         for p1 in firsts {
             single_edits(&p1, &mut |p, _| f(p));
+        }
+    }
+}
+
+/// Every combination of the four castling-right slots (none / a..h each: 9^4) on each corpus board.
+pub struct RightsProduct {
+    pub corpus: Vec<Pos>,
+}
+impl RawUniverse for RightsProduct {
+    fn name(&self) -> String {
+        "S-RIGHTS".into()
+    }
+    fn bounds(&self) -> Value {
+        json!({"corpus_boards": self.corpus.len(), "rights": "all 9^4 assignments of none / file a..h to (white short, white long, black short, black long)"})
+    }
+    fn parts(&self) -> usize {
+        self.corpus.len()
+    }
+    fn part(&self, i: usize, f: &mut dyn FnMut(Pos)) {
+        let base = &self.corpus[i];
+        let opts: Vec<Option<u8>> = std::iter::once(None).chain((0..8u8).map(Some)).collect();
+        for &a in &opts {
+            for &b in &opts {
+                for &c in &opts {
+                    for &d in &opts {
+                        let mut p = base.clone();
+                        p.rights = [[a, b], [c, d]];
+                        f(p);
+                    }
+                }
+            }
         }
     }
 }
